@@ -5,7 +5,9 @@
  ->  harness/drivers/c04.py   macro invocations harvested from the final proofs of replayed library theorems (and recursively from
                               their expansions), mutations of them, seeded fresh propositional instances: eval, expand, and
                               theory.check_proof at the default trust level on [premises as gaps; the step]
- T  spec/C04_MacroTrace.tla   ExpansionChecks, SameConclusion, NoExtraHyps on every invocation whose expansion is produced
+ T  spec/C04_MacroTrace.tla   ExpansionChecks, SameConclusion, NoExtraHyps, NoNewGaps (+ three clauses on the exported numbering) on every
+                              invocation whose expansion is produced; `autohist` = histories of `auto` invocations in one process
+                              (with side conditions, then without, then with; and the opposite order) over the rule tables of the code
 """
 import copy
 import json
@@ -24,7 +26,7 @@ def run(rep, tier):
     rep.rule = ("(a) veriT rule macros on all candidate steps of C18_Alethe, (b) arithmetic macros with an expansion on the C05 goal universe at "
                 "every numeric type, (c) macro invocations (macro, arguments, premise sequents) harvested from the final proofs of seeded library theorems and, "
                 "recursively, from the expansions; mutations (premise dropped/duplicated/permuted/shortened, goal conjunct/disjunct/negated/"
-                "swapped); seeded fresh instances of imp_conj / imp_disj / trivial. Non-trivial = eval reports a sequent and the expansion is "
+                "swapped, one premise at a time given a hypothesis of its own); histories of `auto` invocations in one process over the code's own normalisation rule tables (rule instance with its side conditions as premises / without / with again, and the opposite order); seeded fresh instances of imp_conj / imp_disj / trivial. Non-trivial = eval reports a sequent and the expansion is "
                 "produced (the property's precondition); distinct by (macro, arguments, premises).")
     rep.assumptions = ["z3 steps are not re-run (check_z3 = False), as in the repository's monitor", "sequents are compared through interned structural encodings",
                        "macros without a detailed expansion (NotImplementedError) are outside the property; soundness of veriT rules is C18, here only eval vs expansion"]
@@ -51,11 +53,12 @@ def run(rep, tier):
     avec = wd / "arith_vectors.ndjson"
     ra = tlc("C05_Arith", "C05_Arith_tiny.cfg" if quick else "C05_Arith_small.cfg", wd=wd / "mc", workers=1, env={"VECTOR_FILE": avec}, timeout=3600)
     require(ra.rc == 0 and avec.exists(), "C04: C05_Arith did not emit vectors: %s" % ra.error)
-    ev2, ev3 = wd / "verit.ndjson", wd / "arith.ndjson"
+    ev2, ev3, ev4 = wd / "verit.ndjson", wd / "arith.ndjson", wd / "autohist.ndjson"
     run_driver("c04", ["verit", vvec, ev2, 2500 if quick else 0], timeout=7200)
     run_driver("c04", ["arith", avec, ev3, 1200 if quick else 0], timeout=7200)
+    run_driver("c04", ["autohist", ev4, seed(), 40 if quick else 0], timeout=7200)
     more = []
-    for nm, pth in (("verit", ev2), ("arith", ev3)):
+    for nm, pth in (("verit", ev2), ("arith", ev3), ("autohist", ev4)):
         es = read_events(pth)
         vv = validate_trace("C04_MacroTrace", pth, wd=wd / ("tv_" + nm), nchunks=1)
         rep.add_trace_result(nm, es, vv, sample_n=1)
